@@ -261,6 +261,24 @@ func root(v ssa.Value) ssa.Value {
 			} else {
 				return v
 			}
+		case *ssa.Phi:
+			// a result temporary of an inlined helper: the value, or nil on the
+			// error paths
+			var only ssa.Value
+			n := 0
+			for _, e := range x.Edges {
+				if c, isC := e.(*ssa.Const); isC && c.Value == nil {
+					continue
+				}
+				if e != only {
+					only = e
+					n++
+				}
+			}
+			if n != 1 || only == v {
+				return v
+			}
+			v = only
 		default:
 			return v
 		}
